@@ -25,4 +25,5 @@ Definition R_pullback := @pullback S 0 +%R *%R r_div -%R r_natmul r_pown unpart.
 Definition R_pullback_fixed := @pullback_fixed S 0 +%R *%R r_div -%R r_natmul r_pown unpart.
 Definition R_gradient_like := @gradient_like S 0 +%R r_sub *%R r_div -%R r_natmul r_pown unval unpart.
 Definition R_rollforward := @rollforward S 0.
+Definition R_pullback_unrepaired := @pullback_unrepaired S 0 +%R *%R r_div -%R r_natmul r_pown unpart.
 End Inst.
